@@ -119,3 +119,88 @@ def uncast(e):
     while e[0] == "cast":
         e = strip(e[2])
     return e
+
+
+def rust_bytes(val):
+    """decode the Display form of a byte-string constant `b"..."` into a list of ints"""
+    m = re.match(r'^b"(.*)"$', val or "", re.S)
+    if not m:
+        return None
+    raw = m.group(1)
+    out = []
+    i = 0
+    while i < len(raw):
+        c = raw[i]
+        if c == "\\" and i + 1 < len(raw):
+            n = raw[i + 1]
+            if n == "x":
+                out.append(int(raw[i + 2:i + 4], 16))
+                i += 4
+                continue
+            out.append({"n": 10, "r": 13, "t": 9, "0": 0, "\\": 92, '"': 34, "'": 39}.get(n, ord(n)))
+            i += 2
+            continue
+        out.extend(c.encode("utf-8"))
+        i += 1
+    return out
+
+
+def decode_fmt_template(val):
+    """this nightly lowers format templates to bytes: <len><literal bytes> | 0xC0 (next argument,
+    default formatting) | 0x00 end.  Returns [('lit', str) | ('arg',)] or None when another code
+    (explicit index, width, precision...) appears."""
+    bs = rust_bytes(val)
+    if bs is None:
+        return None
+    out = []
+    i = 0
+    while i < len(bs):
+        b = bs[i]
+        if b == 0:
+            return out if i == len(bs) - 1 else None
+        if b == 0xC0:
+            out.append(("arg",))
+            i += 1
+            continue
+        if b < 0x80:
+            lit = bytes(bs[i + 1:i + 1 + b])
+            if len(lit) != b:
+                return None
+            try:
+                out.append(("lit", lit.decode("utf-8")))
+            except UnicodeDecodeError:
+                return None
+            i += 1 + b
+            continue
+        return None
+    return None
+
+
+def format_parts(e):
+    """for an expression `format!(..)`: (pieces, [arg exprs]) or None"""
+    e = strip(e)
+    if e[0] == "call" and e[1].endswith("hint::must_use") and len(e[2]) == 1:
+        e = strip(e[2][0])
+    if e[0] != "call" or e[1] != "alloc::fmt::format":
+        return None
+    a = strip(e[2][0])
+    if a[0] != "call" or "fmt::Arguments" not in a[1]:
+        return None
+    t = strip(a[2][0])
+    if t[0] != "const":
+        return None
+    if t[1] == "str":
+        return [("lit", t[2])], []
+    pieces = decode_fmt_template(t[2])
+    if pieces is None:
+        return None
+    args = []
+    if len(a[2]) > 1:
+        arr = strip(a[2][1])
+        for _, it in (arr[3] if arr[0] == "agg" else ()):
+            it = strip(it)
+            if it[0] == "call" and "Argument" in it[1]:
+                args.append((it[1].split("::")[-1], strip(it[2][0])))
+            else:
+                return None
+    return pieces, args
